@@ -32,6 +32,7 @@ def answerLine (line : String) : String :=
       | "serde" => SerdeE.answer kv
       | "cmp" => CmpE.answer kv
       | "fill" => FillE.answer kv
+      | "filldefault" => FillE.answer kv
       | "arrmac" => ArrE.answer kv
       | "arrconst" => ArrE.answer kv
       | "constapi" => ConstE.answer kv
